@@ -381,6 +381,15 @@ class Ctx(object):
         return 0
 
 
+def rule_add(rule, more):
+    """RULE with the families added later put in front of the definition of distinct / non-trivial"""
+    i = rule.find("distinct = ")
+    if i < 0:
+        return rule.rstrip() + "; " + more
+    head = rule[:i].rstrip().rstrip(";").rstrip()
+    return head + "; " + more + "; " + rule[i:]
+
+
 def exc_key(exc, tb=None):
     """Mechanism signature of an exception: (type, innermost ioflo function,
     normalised source line) -- never a seed or a random value (1.4)."""
